@@ -144,12 +144,12 @@ Fixpoint grow (fuel : nat) (inS : N -> bool) (R : list N) : list N :=
   end.
 Definition root_matches (rq : list atomr) : list N :=
   flat_map amatch (filter (fun a => negb (a_blk a)) rq).
-(* everything reachable from the roots through active atoms, inside S *)
-Definition reach (rq : list atomr) (X : list N) : list N :=
-  grow (length vdb) (fun q => memN q X) (nodupN (filter (fun q => memN q X) (root_matches rq))).
+(* everything reachable from the root matches through active non-blocker atoms, staying inside [inS] *)
+Definition closure (inS : N -> bool) (rq : list atomr) : list N :=
+  grow (length vdb) inS (nodupN (filter inS (root_matches rq))).
+Definition reach (rq : list atomr) (X : list N) : list N := closure (fun q => memN q X) rq.
 (* the largest set any selection can be drawn from *)
-Definition maxclosure (rq : list atomr) : list N :=
-  grow (length vdb) (fun _ => true) (nodupN (root_matches rq)).
+Definition maxclosure (rq : list atomr) : list N := closure (fun _ => true) rq.
 
 (* ValidSelection: Roots, Closed, Justified, Unblocked *)
 Definition v_roots (rq : list atomr) (X : list N) : bool :=
@@ -299,30 +299,41 @@ Definition subset (a b : list bytes) : bool := forallb (fun x => memb x b) a.
 Fixpoint nodupb (l : list bytes) : bool :=
   match l with [] => true | x :: r => negb (memb x r) && nodupb r end.
 
+(* every "*atom" line of the chain and every user atom has to be an atom *)
+Definition star_atoms (ls : list bytes) : list bytes :=
+  flat_map (fun l => match l with c :: a => if Ascii.eqb c (nb 42) then [a] else [] | [] => [] end) ls.
+Definition entered (c : case) : option (list bytes) :=
+  match prof_lines (c_fs c) (S (length (c_fs c))) (c_profile c) with
+  | Some ls => Some (star_atoms ls ++ c_atoms c)
+  | None => None
+  end.
+Definition all_parse (c : case) : bool :=
+  match entered c with
+  | Some ss => match parse_all (c_dict c) ss with Some _ => true | None => false end
+  | None => false
+  end.
+
 Definition spec_sys (c : case) (o : res (list bytes)) : bool :=
   match o with
   | ROk L =>
     match req_strings c with
-    | Some R => subset L R && subset R L && nodupb L
-                && match parse_all (c_dict c) R with Some _ => true | None => false end
+    | Some R => subset L R && subset R L && nodupb L && all_parse c
     | None => false
     end
-  | RFailed =>
-    match req_strings c with
-    | Some R => match parse_all (c_dict c) R with Some _ => false | None => true end
-    | None => true
-    end
+  | RFailed => negb (all_parse c)        (* a profile directory is missing, or something is not an atom *)
   | _ => false
   end.
 
 Definition spec_request (c : case) : option (list atomr) :=
-  match req_strings c with
-  | Some R => match parse_all (c_dict c) R with
-              | Some us => requested (c_vdb c) us
-              | None => None
-              end
-  | None => None
-  end.
+  if all_parse c then
+    match req_strings c with
+    | Some R => match parse_all (c_dict c) R with
+                | Some us => requested (c_vdb c) us
+                | None => None
+                end
+    | None => None
+    end
+  else None.
 
 (* the property on one case *)
 Definition spec (c : case) (o : obs) : bool :=
@@ -349,6 +360,7 @@ Definition wf_pkg (n : nat) (p : pkg) : bool :=
   prefixb (p_cat p ++ [c_sl]) (p_pn p) && negb (isnil (base_name p))
   && nosepb c_sl (p_cat p) && nosepb c_sl (base_name p) && negb (isnil (p_cat p))
   && forallb (fun a => ids_ok n (a_match a)) (pkg_atoms p)
+  && forallb (fun f => match f with FPanic => false | _ => true end) [p_bdep p; p_dep p; p_rdep p; p_pdep p]
   (* the USE file lists declared flags, without signs; ASCII white space only *)
   && opt_exact (p_iuse_eff p) && opt_exact (p_iuse p) && opt_exact (p_use p)
   && forallb (fun w => negb (has_sign w) && memb w (iuse_names p))
